@@ -345,6 +345,7 @@ func c21Run(p *c21Prog) string {
 	pre := len(st.handlerLog())
 
 	s := NewSched()
+	s.Families = []string{"close.", "ucs."}
 	s.BlockTimeout = 20 * time.Second
 	known := func() bool {
 		gid := curGID()
